@@ -3,6 +3,7 @@
 package db
 
 import (
+	"os"
 	"context"
 	"crypto/sha1"
 	"encoding/base64"
@@ -248,6 +249,54 @@ func (e *c14Env) run(t testing.TB, r *vreport.Report, c c14Case) {
 			delete(m.leaves, win.rev)
 		}
 		m.leaves[newRev] = &c14Leaf{rev: newRev, deleted: del, atts: newAtts}
+		if os.Getenv("VERIF_DEBUG") != "" {
+			if dd, derr := coll.GetDocument(ctx, docID, DocUnmarshalAll); derr == nil {
+				fmt.Printf("DEBUG after %s (newRev %s): current=%s leaves=%v docAtts=%v\n", sym, newRev, dd.GetRevTreeID(), dd.History.GetLeaves(), dd.Attachments())
+				for _, l := range dd.History.GetLeaves() {
+					ri := dd.History[l]
+					fmt.Printf("DEBUG   leaf %s parent=%s deleted=%v hasAtt=%v bodyKey=%q inlineBody=%.120q\n", l, ri.Parent, ri.Deleted, ri.HasAttachments, ri.BodyKey, ri.Body)
+				}
+			}
+		}
+		if branch {
+			// root cause check: a pushed revision that does not become the winner must leave the winner's attachment
+			// metadata alone (the symptoms - winner's attachments gone, orphaned bodies, the new leaf read without its
+			// own attachments - would otherwise each be reported separately)
+			if dd, derr := coll.GetDocument(ctx, docID, DocUnmarshalAll); derr == nil && win != nil && dd.GetRevTreeID() == win.rev && dd.GetRevTreeID() != newRev {
+				var got []string
+				for n, meta := range dd.Attachments() {
+					mm, _ := meta.(map[string]any)
+					got = append(got, fmt.Sprintf("%s=%v", n, mm["digest"]))
+				}
+				sort.Strings(got)
+				var want []string
+				for n, cnt := range win.atts {
+					want = append(want, fmt.Sprintf("%s=%s", n, c14Digest(c14Content[cnt])))
+				}
+				sort.Strings(want)
+				if strings.Join(got, ",") != strings.Join(want, ",") {
+					r.Violate("C14/losing-branch-replaces-the-winners-attachment-metadata/"+tag, fmt.Sprintf("after pushing the non-winning sibling %s (attachments %v) the winning revision %s lists attachments %v, it listed %v before; history %v", newRev, newAtts, win.rev, got, want, c.Hist[:step+1]), rep)
+					return
+				}
+				// ... and the pushed leaf itself must read back with the attachments it was pushed with
+				if b, gerr := coll.Get1xRevBody(ctx, docID, newRev, false, []string{}); gerr == nil {
+					var names []string
+					for n := range GetBodyAttachments(b) {
+						names = append(names, n)
+					}
+					sort.Strings(names)
+					var wantNames []string
+					for n := range newAtts {
+						wantNames = append(wantNames, n)
+					}
+					sort.Strings(wantNames)
+					if strings.Join(names, ",") != strings.Join(wantNames, ",") {
+						r.Violate("C14/losing-branch-read-back-without-its-attachments/"+tag, fmt.Sprintf("the non-winning sibling %s was pushed with attachments %v and reads back with %v; history %v", newRev, wantNames, names, c.Hist[:step+1]), rep)
+						return
+					}
+				}
+			}
+		}
 		// ---- checks after every write, for every document and leaf
 		for did, dm := range docs {
 			fullID := did + sfx
@@ -265,6 +314,9 @@ func (e *c14Env) run(t testing.TB, r *vreport.Report, c c14Case) {
 						fp = "C14/promoted-leaf-loses-attachment-when-the-winning-branch-is-tombstoned/" + tag
 					}
 					r.Violate(fp, fmt.Sprintf("leaf %s of %s cannot be read with attachments: %v; history %v", leaf.rev, did, gerr, c.Hist[:step+1]), rep)
+					if strings.HasPrefix(fp, "C14/promoted-leaf") {
+						return // the rest of this history runs on a state that is already wrong for a recorded reason
+					}
 					continue
 				}
 				got := GetBodyAttachments(b)
